@@ -3,7 +3,7 @@ base64, time strings, SM2 signature DER)."""
 import calendar
 from vlib import core
 from vlib.core import hexs
-from vlib.codec_common import der_len, tlv, der_uint, b128, mutate, compare
+from vlib.codec_common import der_len, tlv, der_uint, b128, mutate, compare, key_hints, sm2_pub_bytes, sm2_octets_ok, SM2_N, SM2_P
 
 INT_MAX = 2**31 - 1
 
@@ -380,13 +380,328 @@ def gen(ctx):
     return cases
 
 
+
+# ------------------------------------------------------------------------------------ composite objects
+OIDS = {1: [1, 2, 156, 10197, 1, 301], 2: [1, 2, 840, 10045, 3, 1, 1], 3: [1, 2, 840, 10045, 3, 1, 7], 4: [1, 3, 132, 0, 10], 5: [1, 3, 132, 0, 34],
+        6: [1, 3, 132, 0, 35], 10: [1, 2, 840, 10045, 2, 1], 11: [1, 2, 840, 113549, 1, 1, 1], 20: [1, 2, 156, 10197, 1, 104, 2],
+        21: [2, 16, 840, 1, 101, 3, 4, 1, 2], 22: [2, 16, 840, 1, 101, 3, 4, 1, 22], 23: [2, 16, 840, 1, 101, 3, 4, 1, 42],
+        30: [1, 2, 156, 10197, 1, 401, 2], "pbkdf2": [1, 2, 840, 113549, 1, 5, 12], "pbes2": [1, 2, 840, 113549, 1, 5, 13], "unknown": [1, 2, 3, 4, 5]}
+
+
+def oid_der(k):
+    n = OIDS[k]
+    return tlv(6, b128(n[0] * 40 + n[1]) + b"".join(b128(a) for a in n[2:]))
+
+
+def kdf_params(salt, iter_, keylen=None, prf=None, extra=b""):
+    return tlv(0x30, tlv(4, salt) + der_uint(iter_) + (der_uint(keylen) if keylen is not None else b"") +
+               (tlv(0x30, oid_der(prf)) if prf is not None else b"") + extra)
+
+
+def p8e_der(salt, iter_, keylen, prf, cipher, iv, enced):
+    kdfa = tlv(0x30, oid_der("pbkdf2") + kdf_params(salt, iter_, keylen, prf))
+    enca = tlv(0x30, oid_der(cipher) + tlv(4, iv))
+    return tlv(0x30, tlv(0x30, oid_der("pbes2") + tlv(0x30, kdfa + enca)) + tlv(4, enced))
+
+
+def priv_der(d, pub=None, ver=1, curve=1, with0=True, with1=True):
+    pub = sm2_pub_bytes(d) if pub is None else pub
+    return tlv(0x30, der_uint(ver) + tlv(4, d) + (tlv(0xa0, oid_der(curve)) if with0 else b"") +
+               (tlv(0xa1, tlv(3, b"\0\x04" + pub)) if with1 else b""))
+
+
+def p8_der(d, ver=0, alg=None, attrs=None, inner=None):
+    alg = tlv(0x30, oid_der(10) + oid_der(1)) if alg is None else alg
+    return tlv(0x30, der_uint(ver) + alg + tlv(4, priv_der(d) if inner is None else inner) + (tlv(0xa0, attrs) if attrs is not None else b""))
+
+
+def gen_composite(ctx, harness):
+    r = ctx.rng
+    thorough = ctx.tier == "thorough"
+    K = 4 if thorough else 1
+    cases = []
+    add = lambda line, cell: cases.append((line, cell))
+
+    def mut(op, valid, n, hints=False, pre=""):
+        for v in valid:
+            for _ in range(n * K):
+                m = mutate(r, v, r.range(1, 2))
+                add("%s %s%s%s" % (op, pre, hexs(m), key_hints(m) if hints else ""), op.split()[0] + ":mutated")
+            for cut in range(0, len(v), max(1, len(v) // 12)):
+                add("%s %s%s%s" % (op, pre, hexs(v[:cut]), key_hints(v[:cut]) if hints else ""), op.split()[0] + ":truncated")
+
+    # ---- named curves and AlgorithmIdentifiers
+    for c in (1, 2, 3, 4, 5, 6, 0, -1, 7, 20):
+        add("curveE %d" % c, "curveE:%s" % ("known" if 1 <= c <= 6 else "unknown"))
+        add("pkalgE 10 %d" % c, "pkalgE:ec:%s" % ("known" if 1 <= c <= 6 else "unknown"))
+    for k in (1, 2, 3, 4, 5, 6, 10, 20, "unknown"):
+        add("curveD %s" % hexs(oid_der(k) + r.bytes(r.below(2))), "curveD:%s" % ("known" if k in (1, 2, 3, 4, 5, 6) else "not-a-curve"))
+    for h in ("0500", "-", "06", "0600", "3000", "06082a811ccf5501822d00"):
+        add("curveD %s" % h, "curveD:absent-or-malformed")
+    for a, par in ((11, 0), (11, 1), (12, 0), (0, 0), (20, 1)):
+        add("pkalgE %d %d" % (a, par), "pkalgE:%s" % ("rsa" if a == 11 else "unknown"))
+    pk_valid = [tlv(0x30, oid_der(10) + oid_der(c)) for c in (1, 2, 3, 4, 5, 6)] + [tlv(0x30, oid_der(11) + b"\x05\x00"), tlv(0x30, oid_der(11))]
+    pk_bad = [tlv(0x30, oid_der(10)), tlv(0x30, oid_der(10) + b"\x05\x00"), tlv(0x30, oid_der(10) + oid_der(20)), tlv(0x30, oid_der(10) + oid_der(1) + b"\x05\x00"),
+              tlv(0x30, oid_der(11) + b"\x05\x00\x05\x00"), tlv(0x30, oid_der(11) + oid_der(1)), tlv(0x30, oid_der(20) + b"\x05\x00"), tlv(0x30, oid_der("unknown")),
+              tlv(0x30, b""), tlv(0x31, oid_der(10) + oid_der(1)), b"", tlv(0x30, b"\x05\x00")]
+    for v in pk_valid + pk_bad:
+        add("pkalgD %s" % hexs(v + r.bytes(r.below(2))), "pkalgD:%s" % ("valid" if v in pk_valid else "malformed"))
+        add("sm2algD %s" % hexs(v), "sm2algD:%s" % ("sm2" if v == pk_valid[0] else "other"))
+    add("sm2algE", "sm2algE")
+    mut("pkalgD", pk_valid[:2] + pk_valid[6:], 12)
+    for a in (20, 21, 22, 23, 24, 10, 0):
+        for ivl in (0, 15, 16, 17):
+            add("encalgE %d %s" % (a, hexs(r.bytes(ivl))), "encalgE:%s:iv%s" % ("known" if 20 <= a <= 23 else "unknown", "=16" if ivl == 16 else "!=16"))
+            add("p2eE %d %s" % (a, hexs(r.bytes(ivl))), "p2eE:%s:iv%s" % ("sm4" if a == 20 else "other", "=16" if ivl == 16 else "!=16"))
+    enc_valid = [tlv(0x30, oid_der(a) + tlv(4, r.bytes(16))) for a in (20, 21, 22, 23)]
+    enc_bad = [tlv(0x30, oid_der(20) + tlv(4, r.bytes(n))) for n in (0, 15, 17)] + [tlv(0x30, oid_der(20)), tlv(0x30, oid_der(20) + b"\x05\x00"), tlv(0x30, oid_der(10) + tlv(4, bytes(16))),
+               tlv(0x30, oid_der("unknown") + tlv(4, bytes(16))), tlv(0x30, oid_der(20) + tlv(4, bytes(16)) + b"\x05\x00"), b"", b"\x05\x00", tlv(0x30, b"")]
+    for v in enc_valid + enc_bad:
+        add("encalgD %s" % hexs(v + r.bytes(r.below(2))), "encalgD:%s" % ("valid" if v in enc_valid else "malformed-or-absent"))
+        add("p2eD %s" % hexs(v), "p2eD:%s" % ("sm4" if v == enc_valid[0] else "other-or-malformed"))
+    mut("encalgD", enc_valid[:2], 12)
+
+    # ---- PBKDF2-params with every presence pattern of the OPTIONAL fields, at every nesting level
+    for prf in (30, -1, 20, 0):
+        add("prfE %d" % prf, "prfE:%s" % ("hmac-sm3" if prf == 30 else ("absent" if prf == -1 else "other")))
+    for v in (tlv(0x30, oid_der(30)), tlv(0x30, oid_der(20)), tlv(0x30, oid_der(30) + b"\x05\x00"), tlv(0x30, b""), b"", b"\x05\x00", b"\x02\x01\x10", tlv(0x30, oid_der(30))[:-1]):
+        add("prfD %s" % hexs(v + r.bytes(r.below(2))), "prfD")
+    combos = [(kl, prf) for kl in (None, 16, 32, 0, 255, 65536) for prf in (None, 30)]
+    for salt_len in (1, 8, 16, 64):
+        for it in (1, 2, 1000, 65536, 2**31 - 1):
+            for kl, prf in (combos if (salt_len, it) in ((8, 65536), (16, 2)) else [r.choice(combos)]):
+                salt = r.bytes(salt_len)
+                cls = "keylen-%s:prf-%s" % ("absent" if kl is None else "present", "absent" if prf is None else "present")
+                args = "%s %d %d %d" % (hexs(salt), it, -1 if kl is None else kl, -1 if prf is None else prf)
+                add("kdfpE " + args, "kdfpE:" + cls)
+                add("kdfaE " + args, "kdfaE:" + cls)
+                iv = r.bytes(16)
+                add("p2pE %s 20 %s" % (args, hexs(iv)), "p2pE:" + cls)
+                add("p2aE %s 20 %s" % (args, hexs(iv)), "p2aE:" + cls)
+                en = r.bytes(r.choice([0, 16, 160]))
+                add("p8eE %s 20 %s %s" % (args, hexs(iv), hexs(en)), "p8eE:" + cls)
+                kp = kdf_params(salt, it, kl, prf)
+                ka = tlv(0x30, oid_der("pbkdf2") + kp)
+                pp = tlv(0x30, ka + tlv(0x30, oid_der(20) + tlv(4, iv)))
+                pa = tlv(0x30, oid_der("pbes2") + pp)
+                for op, v in (("kdfpD", kp), ("kdfaD", ka), ("p2pD", pp), ("p2aD", pa), ("p8eD", tlv(0x30, pa + tlv(4, en)))):
+                    add("%s %s" % (op, hexs(v + r.bytes(r.below(2)))), "%s:%s" % (op, cls))
+    for a in ("aabb -1 16 30", "aabb 0 16 30", "- 5 16 30", "aabb 5 -1 20", "aabb -7 16 30", "aabb 5 -5 -1"):
+        add("kdfpE " + a, "kdfpE:edge")
+    salt = r.bytes(8)
+    bad = [kdf_params(b"", 5, 16, 30), kdf_params(salt, 0, 16, 30), kdf_params(salt, 5, 16, 20), kdf_params(salt, 5, 16, 30, b"\x05\x00"), kdf_params(salt, 5, None, None, der_uint(3) + der_uint(4)),
+           tlv(0x30, tlv(4, salt)), tlv(0x30, der_uint(5) + tlv(4, salt)), tlv(0x30, tlv(4, salt) + der_uint(5) + tlv(0x30, oid_der(30)) + der_uint(16)),
+           tlv(0x30, tlv(4, salt) + b"\x02\x05\x00\x80\x00\x00\x00"), tlv(0x30, tlv(4, salt) + der_uint(5) + b"\x02\x01\x80"), tlv(0x30, tlv(4, salt) + der_uint(5) + tlv(0x30, oid_der(30) + oid_der(30))), b"", b"\x05\x00"]
+    for v in bad:
+        add("kdfpD %s" % hexs(v), "kdfpD:malformed")
+        add("kdfaD %s" % hexs(tlv(0x30, oid_der("pbkdf2") + v)), "kdfaD:malformed")
+        add("p8eD %s" % hexs(tlv(0x30, tlv(0x30, oid_der("pbes2") + tlv(0x30, tlv(0x30, oid_der("pbkdf2") + v) + tlv(0x30, oid_der(20) + tlv(4, bytes(16))))) + tlv(4, b"x" * 16))), "p8eD:malformed-kdf")
+    good = p8e_der(salt, 3, 16, 30, 20, bytes(16), r.bytes(32))
+    for v in (p8e_der(salt, 3, 16, 30, 21, bytes(16), b"x"), p8e_der(salt, 3, 16, 30, 20, bytes(15), b"x"), tlv(0x30, tlv(0x30, oid_der("pbkdf2") + b"\x05\x00") + tlv(4, b"x")),
+              tlv(0x30, good[3:-34]), good + b"\x00", tlv(0x30, good[3:] + b"\x05\x00")):
+        add("p8eD %s" % hexs(v), "p8eD:malformed")
+    mut("kdfpD", [kdf_params(salt, 3, 16, 30), kdf_params(salt, 3)], 25)
+    mut("p8eD", [good, p8e_der(salt, 3, None, None, 20, bytes(16), r.bytes(16))], 40)
+    mut("p2aD", [good[3:3 + 2 + good[4]]], 25)
+
+    # ---- SM2 ciphertext
+    xs = [bytes(32), bytes(31) + b"\x01", b"\x7f" + b"\xff" * 31, b"\x80" + bytes(31), b"\xff" * 32, bytes(16) + b"\x80" + bytes(15), r.bytes(32)]
+    for x in xs:
+        for clen in (0, 1, 32, 255):
+            y, h, c = r.choice(xs), r.bytes(32), r.bytes(clen)
+            add("ctE %s %s %s %s" % (hexs(x), hexs(y), hexs(h), hexs(c)), "ctE:clen%s" % ("=0" if clen == 0 else ("=255" if clen == 255 else "mid")))
+            e = tlv(0x30, der_uint(int.from_bytes(x, "big")) + der_uint(int.from_bytes(y, "big")) + tlv(4, h) + tlv(4, c))
+            add("ctD %s" % hexs(e + r.bytes(r.below(2))), "ctD:valid")
+    one = der_uint(1)
+    for body in (one + one + tlv(4, bytes(32)) + tlv(4, bytes(256)), one + one + tlv(4, bytes(31)) + tlv(4, b"x"), one + one + tlv(4, bytes(33)) + tlv(4, b"x"), one + one + tlv(4, bytes(32)),
+                 one + tlv(4, bytes(32)) + tlv(4, b"x"), tlv(2, b"\x01" + bytes(32)) + one + tlv(4, bytes(32)) + tlv(4, b"x"), one + tlv(2, b"\x00" + b"\x80" * 33) + tlv(4, bytes(32)) + tlv(4, b"x"),
+                 one + one + tlv(4, bytes(32)) + tlv(4, b"x") + b"\x05\x00", b"\x02\x01\x80" + one + tlv(4, bytes(32)) + tlv(4, b"x"), b""):
+        add("ctD %s" % hexs(tlv(0x30, body)), "ctD:structure")
+    ct_ok = tlv(0x30, der_uint(int.from_bytes(r.bytes(32), "big")) + der_uint(int.from_bytes(r.bytes(32), "big")) + tlv(4, r.bytes(32)) + tlv(4, r.bytes(40)))
+    mut("ctD", [ct_ok], 60)
+
+    # ---- SM2 public keys
+    ds = [r.bytes(32) for _ in range(3)] + [(1).to_bytes(32, "big"), (SM2_N - 2).to_bytes(32, "big")]
+    ds = [d for d in ds if 0 < int.from_bytes(d, "big") < SM2_N - 1]
+    pubs = [sm2_pub_bytes(d) for d in ds]
+    for xy in pubs:
+        add("pubE %s" % hexs(xy), "pubE")
+        add("pubiE %s" % hexs(xy), "pubiE")
+    def pubcase(op, bits, cell, wrap=False):
+        v = tlv(3, bits)
+        if wrap:
+            v = tlv(0x30, tlv(0x30, oid_der(10) + oid_der(1)) + v)
+        add("%s %s%s" % (op, hexs(v), key_hints(v)), "%s:%s" % (op, cell))
+    for op, wrap in (("pubD", False), ("pubiD", True)):
+        for xy in pubs:
+            pubcase(op, b"\0\x04" + xy, "valid", wrap)
+            y = (SM2_P - int.from_bytes(xy[32:], "big")).to_bytes(32, "big")
+            pubcase(op, b"\0\x04" + xy[:32] + y, "valid-negated", wrap)
+            m = bytearray(xy); m[r.below(64)] ^= 1 << r.below(8)
+            pubcase(op, b"\0\x04" + bytes(m), "off-curve", wrap)
+        xy = pubs[0]
+        for pre in (0, 2, 3, 5, 6, 7, 0xff):
+            pubcase(op, b"\0" + bytes([pre]) + xy, "bad-prefix", wrap)
+        pubcase(op, b"\0\x04" + bytes(64), "zero-point", wrap)
+        pubcase(op, b"\0\x04" + SM2_P.to_bytes(32, "big") + xy[32:], "x>=p", wrap)
+        pubcase(op, b"\0\x04" + xy[:32] + (SM2_P + 1).to_bytes(32, "big"), "y>=p", wrap)
+        pubcase(op, b"\0\x04" + b"\xff" * 64, "x,y>=p", wrap)
+        pubcase(op, b"\0\x04" + xy[:63], "short", wrap)
+        pubcase(op, b"\0\x04" + xy + b"\0", "long", wrap)
+        pubcase(op, b"\0\x02" + xy[:32], "compressed-33", wrap)
+        pubcase(op, b"\x01\x04" + xy, "unused-bits", wrap)
+        pubcase(op, b"", "empty", wrap)
+    add("pubiD %s%s" % (hexs(tlv(0x30, tlv(0x30, oid_der(10) + oid_der(3)) + tlv(3, b"\0\x04" + pubs[0]))), " P=04%s:1" % pubs[0].hex()), "pubiD:other-curve")
+    add("pubiD %s%s" % (hexs(tlv(0x30, tlv(0x30, oid_der(11) + b"\x05\x00") + tlv(3, b"\0\x04" + pubs[0]))), " P=04%s:1" % pubs[0].hex()), "pubiD:rsa-alg")
+    add("pubiD %s%s" % (hexs(tlv(0x30, tlv(0x30, oid_der(10) + oid_der(1)) + tlv(3, b"\0\x04" + pubs[0]) + b"\x05\x00")), " P=04%s:1" % pubs[0].hex()), "pubiD:trailing")
+    mut("pubiD", [tlv(0x30, tlv(0x30, oid_der(10) + oid_der(1)) + tlv(3, b"\0\x04" + pubs[0]))], 40, hints=True)
+
+    # ---- SM2 private keys, PrivateKeyInfo
+    for d in ds:
+        h = " H=%s:%s" % (d.hex(), sm2_pub_bytes(d).hex())
+        add("privE %s%s" % (hexs(d), h), "privE")
+        add("p8E %s%s" % (hexs(d), h), "p8E")
+    def kcase(op, v, cell):
+        add("%s %s%s" % (op, hexs(v), key_hints(v)), "%s:%s" % (op, cell))
+    d0, d1 = ds[0], ds[1]
+    for d in ds:
+        kcase("privD", priv_der(d) + r.bytes(r.below(2)), "valid")
+        kcase("p8D", p8_der(d) + r.bytes(r.below(2)), "valid:attrs-absent")
+    for dbad, cls in ((bytes(32), "d=0"), ((SM2_N - 1).to_bytes(32, "big"), "d=n-1"), (SM2_N.to_bytes(32, "big"), "d=n"), (b"\xff" * 32, "d=2^256-1")):
+        kcase("privD", priv_der(dbad, pub=sm2_pub_bytes(d0)), "range:" + cls)
+    kcase("privD", priv_der(d0, pub=sm2_pub_bytes(d1)), "public-mismatch")
+    kcase("privD", priv_der(d0, with1=False), "no-public")
+    kcase("privD", priv_der(d0, with0=False), "no-params")
+    kcase("privD", priv_der(d0, curve=3), "other-curve")
+    for ver in (0, 2, 255):
+        kcase("privD", priv_der(d0, ver=ver), "version")
+    kcase("privD", tlv(0x30, der_uint(1) + tlv(4, d0[:31]) + tlv(0xa0, oid_der(1)) + tlv(0xa1, tlv(3, b"\0\x04" + sm2_pub_bytes(d0)))), "d-31-bytes")
+    kcase("privD", tlv(0x30, der_uint(1) + tlv(4, b"\0" + d0) + tlv(0xa0, oid_der(1)) + tlv(0xa1, tlv(3, b"\0\x04" + sm2_pub_bytes(d0)))), "d-33-bytes")
+    kcase("privD", tlv(0x30, der_uint(1) + tlv(4, d0) + tlv(0xa0, oid_der(1) + b"\x05\x00") + tlv(0xa1, tlv(3, b"\0\x04" + sm2_pub_bytes(d0)))), "params-trailing")
+    kcase("privD", tlv(0x30, der_uint(1) + tlv(4, d0) + tlv(0xa0, b"") + tlv(0xa1, tlv(3, b"\0\x04" + sm2_pub_bytes(d0)))), "params-empty")
+    kcase("privD", tlv(0x30, der_uint(1) + tlv(4, d0) + tlv(0xa0, oid_der(1)) + tlv(0xa1, tlv(3, b"\0\x04" + sm2_pub_bytes(d0)) + b"\x05\x00")), "public-trailing")
+    kcase("privD", priv_der(d0)[:-1] , "truncated")
+    kcase("privD", tlv(0x30, priv_der(d0)[3:] + b"\x05\x00"), "trailing-in-sequence")
+    kcase("privD", b"", "empty")
+    kcase("p8D", p8_der(d0, attrs=b"\x30\x03\x02\x01\x05"), "valid:attrs-present")
+    kcase("p8D", p8_der(d0, attrs=b""), "valid:attrs-empty")
+    kcase("p8D", p8_der(d0, ver=1), "version")
+    kcase("p8D", p8_der(d0, alg=tlv(0x30, oid_der(11) + b"\x05\x00")), "rsa-alg")
+    kcase("p8D", p8_der(d0, alg=tlv(0x30, oid_der(10) + oid_der(3))), "other-curve")
+    kcase("p8D", p8_der(d0, inner=priv_der(d0) + b"\x00"), "inner-trailing")
+    kcase("p8D", p8_der(d0, inner=priv_der(d0, pub=sm2_pub_bytes(d1))), "inner-public-mismatch")
+    kcase("p8D", p8_der(d0, inner=b""), "inner-empty")
+    kcase("p8D", tlv(0x30, p8_der(d0)[3:] + b"\x05\x00"), "trailing-in-sequence")
+    kcase("p8D", tlv(0x30, der_uint(0) + tlv(0x30, oid_der(10) + oid_der(1))), "no-key")
+    mut("privD", [priv_der(d0)], 70, hints=True)
+    mut("p8D", [p8_der(d0), p8_der(d1, attrs=b"\x30\x00")], 50, hints=True)
+
+    # ---- password-encrypted keys: built with chosen parameters, opened with right and wrong passwords
+    def keyh(d):
+        xy = sm2_pub_bytes(d)
+        return " H=%s:%s P=04%s:1" % (d.hex(), xy.hex(), xy.hex())
+    seals = []
+    for i, (it, kl, prf) in enumerate([(1, 16, 30), (2, -1, -1), (3, 16, -1), (5, -1, 30), (2, 32, 30), (2, 16, 30)]):
+        d = ds[i % len(ds)]
+        pw = [b"password", b"", b"a", b"correct horse battery staple 0123456789", b"pw", b"\xe5\xaf\x86\xe7\xa0\x81"][i]
+        seals.append(("p8seal %s %s %s %s %d %d %d%s" % (hexs(d), hexs(pw), hexs(r.bytes(r.choice([8, 16]))), hexs(r.bytes(16)), it, kl, prf, keyh(d)), d, pw, kl))
+    out, _ = core.run_lines(harness, [x[0] for x in seals], shards=1)
+    for (line, d, pw, kl), o in zip(seals, out):
+        add(line, "p8seal:keylen%s" % ("-absent" if kl == -1 else ("=16" if kl == 16 else "-other")))
+        if not o.startswith("OK "):
+            continue
+        der = bytes.fromhex(o.split()[1])
+        add("p8open %s %s%s" % (hexs(pw), hexs(der + r.bytes(r.below(2))), keyh(d)), "p8open:right-password:keylen%s" % ("-absent" if kl == -1 else ("=16" if kl == 16 else "-other")))
+        for wrong in (pw + b"x", pw[:-1] if pw else b"z", b"Password", bytes(reversed(pw)) if len(set(pw)) > 1 else b"zz"):
+            if wrong != pw:
+                add("p8open %s %s%s" % (hexs(wrong), hexs(der), keyh(d)), "p8open:wrong-password")
+        for _ in range(12 * K):
+            add("p8open %s %s%s" % (hexs(pw), hexs(mutate(r, der, 1)), keyh(d)), "p8open:tampered")
+        for cut in (0, 1, len(der) // 2, len(der) - 17, len(der) - 1):
+            add("p8open %s %s%s" % (hexs(pw), hexs(der[:cut]), keyh(d)), "p8open:truncated")
+    # plaintexts the library's writer never produces: PrivateKeyInfo with attributes, with trailing bytes, other structures
+    raws = []
+    for i, (info, cls) in enumerate([(p8_der(ds[0], attrs=b"\x30\x03\x02\x01\x05"), "attrs-present"), (p8_der(ds[1], attrs=b""), "attrs-empty"),
+                                     (p8_der(ds[0]) + b"\x00", "trailing-byte"), (priv_der(ds[0]), "bare-ECPrivateKey"), (p8_der(ds[0], ver=1), "version-1")]):
+        raws.append(("p8sealraw %s %s %s %s 2 16 30" % (hexs(info), hexs(b"pw"), hexs(r.bytes(8)), hexs(r.bytes(16))), info, cls))
+    out, _ = core.run_lines(harness, [x[0] for x in raws], shards=1)
+    for (line, info, cls), o in zip(raws, out):
+        add(line, "p8sealraw:" + cls)
+        if o.startswith("OK "):
+            der = bytes.fromhex(o.split()[1])
+            add("p8open %s %s%s" % (hexs(b"pw"), hexs(der), keyh(ds[0]) + keyh(ds[1])), "p8open:plaintext:" + cls)
+    for en_len in (0, 15, 16, 32, 256, 257, 272):
+        v = p8e_der(r.bytes(8), 2, 16, 30, 20, r.bytes(16), r.bytes(en_len))
+        add("p8open 70617373 %s" % hexs(v), "p8open:garbage-ciphertext:len%s" % ("<=256" if en_len <= 256 else ">256"))
+    add("p8open 70617373 %s" % hexs(p8e_der(r.bytes(8), 2, 16, 30, 21, r.bytes(16), r.bytes(32))), "p8open:other-cipher")
+    add("p8open 70617373 %s" % hexs(p8e_der(r.bytes(8), 2, 16, None, 20, r.bytes(16), r.bytes(32))), "p8open:prf-absent")
+    add("p8open 70617373 %s" % hexs(p8e_der(r.bytes(8), 2, None, 30, 20, r.bytes(16), r.bytes(32))), "p8open:keylen-absent")
+    # the library's own writer (65536 iterations): PBKDF2 output is taken from the harness as a hint
+    libn = 2 if not thorough else 4
+    d = ds[0]
+    lib = ["p8sealLib %s %s %d" % (hexs(d), hexs(b"lib-pass-%d" % i), 1000 + i) for i in range(libn)]
+    out, _ = core.run_lines(harness, lib, shards=1)
+    for i, o in enumerate(out):
+        if not o.startswith("OK "):
+            ctx.notes.append("p8sealLib failed: " + o[:80])
+            continue
+        der = bytes.fromhex(o.split()[1])
+        from vlib.codec_common import scan_strings
+        salt = next(b for t, b in scan_strings(der) if t == 4)
+        pws = [b"lib-pass-%d" % i, b"lib-pass-x"]
+        ks, _ = core.run_lines(harness, ["kdf %s %s 65536" % (hexs(pw), hexs(salt)) for pw in pws], shards=1)
+        for pw, k in zip(pws, ks):
+            add("p8open %s %s%s K=%s/%s/65536:%s" % (hexs(pw), hexs(der), keyh(d), hexs(pw), hexs(salt), k),
+                "p8open:library-made:%s" % ("right-password" if pw == pws[0] else "wrong-password"))
+
+    # ---- PEM
+    import base64
+    names = [b"CERTIFICATE", b"EC PRIVATE KEY", b"X", b"N" * 60, b"N" * 70]
+    for n in (1, 2, 3, 47, 48, 49, 96, 100, 1000):
+        data = r.bytes(n)
+        name = names[n % 3]
+        add("pemW %s %s" % (hexs(name), hexs(data)), "pemW:%s" % ("<48" if n < 48 else ("=48k" if n % 48 == 0 else ">48")))
+        b64 = base64.b64encode(data)
+        text = b"-----BEGIN " + name + b"-----\n" + b"".join(b64[i:i + 64] + b"\n" for i in range(0, len(b64), 64)) + b"-----END " + name + b"-----\n"
+        for cap in (n + 100, n + 1, n, n - 1, n // 2, 0):
+            add("pemR %s %d %s" % (hexs(name), cap, hexs(text)), "pemR:canonical:capacity%s" % (">=len" if cap >= n else "<len"))
+        add("pemR %s %d %s" % (hexs(name), n, hexs(text.replace(b"\n", b"\r\n"))), "pemR:crlf")
+        add("pemR %s %d %s" % (hexs(name), n, hexs(text[:-1])), "pemR:no-final-newline")
+        add("pemR %s %d %s" % (hexs(name), n, hexs(text + b"trailing text\n")), "pemR:text-after-end")
+        add("pemR %s %d %s" % (hexs(name), n, hexs(text[:text.rfind(b"-----END")])), "pemR:no-end-line")
+        add("pemR %s %d %s" % (hexs(names[(n + 1) % 3]), n, hexs(text)), "pemR:other-name")
+        add("pemR %s %d %s" % (hexs(name), n, hexs(b"\n" + text)), "pemR:leading-blank-line")
+        wide = b"-----BEGIN " + name + b"-----\n" + b"".join(b64[i:i + 100] + b"\n" for i in range(0, len(b64), 100)) + b"-----END " + name + b"-----\n"
+        add("pemR %s %d %s" % (hexs(name), n, hexs(wide)), "pemR:width100")
+        narrow = b"-----BEGIN " + name + b"-----\n" + b"".join(b64[i:i + 4] + b"\n" for i in range(0, len(b64), 4)) + b"-----END " + name + b"-----\n"
+        add("pemR %s %d %s" % (hexs(name), n, hexs(narrow)), "pemR:width4")
+        for _ in range(8 * K):
+            add("pemR %s %d %s" % (hexs(name), n + 8, hexs(mutate(r, text, r.range(1, 2)))), "pemR:mutated")
+    add("pemW %s -" % hexs(b"X"), "pemW:empty")
+    for nm in names[3:]:
+        data = r.bytes(30)
+        add("pemW %s %s" % (hexs(nm), hexs(data)), "pemW:long-name")
+        text = b"-----BEGIN " + nm + b"-----\n" + base64.b64encode(data) + b"\n-----END " + nm + b"-----\n"
+        add("pemR %s 30 %s" % (hexs(nm), hexs(text)), "pemR:long-name")
+    for t in (b"", b"\n", b"-----BEGIN X-----", b"-----BEGIN X-----\n", b"-----BEGIN X-----\n-----END X-----\n", b"-----BEGIN X-----\nQUJD\n-----END X-----", b"-----BEGIN X-----\nQUJD\x00junk\n-----END X-----\n",
+              b"-----BEGIN X-----\nQU JD\n-----END X-----\n", b"-----BEGIN X-----\nQUJ\n-----END X-----\n", b"-----BEGIN X-----\nQUJD!\n-----END X-----\n", b"-----BEGIN X-----\n" + b"QUJD" * 30 + b"\n-----END X-----\n",
+              b"-----BEGIN X-----\nQQ==\n-----END X-----\n", b"-----BEGIN X-----\nQQ==\nQUJD\n-----END X-----\n", b"-----BEGIN X-----\n====\n-----END X-----\n", b" -----BEGIN X-----\nQUJD\n-----END X-----\n",
+              b"-----BEGIN X-----\n-----END X-----\nQUJD\n", b"-----BEGIN X-----\n\n\nQUJD\n\n-----END X-----\n", b"-----BEGIN X-----\r\nQUJD\r\n-----END X-----\r\n", b"-----BEGIN X-----\nQUJD\n-----END X-----\r"):
+        add("pemR 58 64 %s" % hexs(t), "pemR:literal")
+    return cases
+
+
 def run(ctx):
     ctx.check_proofs()
     model, log = core.build_model("C14")
     if model is None:
         ctx.violation("correspondence:model-build", "extracted model does not build: " + log[-500:], {"kind": "correspondence", "log": log[-3000:]}, False)
         return finish(ctx)
-    cases = gen(ctx)
+    exe0, log = core.build_harness("C14", "asan")
+    if exe0 is None:
+        core.harness_build_failed(ctx, log)
+        return finish(ctx)
+    cases = gen(ctx) + gen_composite(ctx, exe0)
     lines = [c[0] for c in cases]
     mout, _ = core.run_lines(model, lines)
     for v in (["asan"] if ctx.tier == "quick" else ["asan", "fast"]):
